@@ -167,7 +167,7 @@ prop("C19", "exploration", "reference device completing posted buffers in arbitr
      DRV_NOTE + " Written lengths never exceed the buffer size here (oversized lengths are a C07 fault).",
      "a case is one stocked queue (12 OwningQueue instantiations x INDIRECT_DESC x EVENT_IDX, or one VirtIOInput / VirtIOSound instance on one of 3-4 transports) receiving >= 100 x SIZE events (3200 for input / sound) in bursts of 1..SIZE with the device choosing among posted buffers at random; sound notifications include unknown codes and short writes. "
      "Non-trivial iff at least one delivered event was compared; distinct by hash of (configuration, completion choices, case).",
-     [stage("checked", scale=4000)], [stage("checked", scale=100000), stage("asan", scale=4000, optional=True), stage("miri", optional=True, timeout=7200)])
+     [stage("checked", scale=4000)], [stage("checked", scale=60000), stage("asan", scale=4000, optional=True), stage("miri", optional=True, timeout=7200)])
 
 prop("C20", "exploration", "five reference devices decoding every request chain against the specification's structure layouts; GPU resource table + DMA-ledger audit of attached backing; PCM stream reassembly",
      "GPU, sound, entropy, clock and 9P drivers run against reference devices that decode each chain (little-endian field positions per VirtIO 1.2/1.3 structure layouts), check command order (create -> attach -> set_scanout; transfer -> flush; set_params before xfer), and answer with the expected success type or with error codes, wrong success types and garbage - any of which must turn into an Err. "
